@@ -101,6 +101,7 @@ package transport_controller
 //@   modifies c.links, c.linksByPeerID, c.linksByPeerID[el.lnk.GetRemotePeer()]
 //@   loop 1 invariant forall j int trigger c.linksByPeerID[el.lnk.GetRemotePeer()][j] :: 0 <= j && j <= rangeindex ==> c.linksByPeerID[el.lnk.GetRemotePeer()][j] != el
 //@   assert at exit: (el.lnk.GetRemotePeer() in c.linksByPeerID) ==> forall i int trigger old(c.linksByPeerID[el.lnk.GetRemotePeer()][i]) :: 0 <= i && i < len(c.linksByPeerID[el.lnk.GetRemotePeer()]) ==> c.linksByPeerID[el.lnk.GetRemotePeer()][i] == old(c.linksByPeerID[el.lnk.GetRemotePeer()][i]) || old(c.linksByPeerID[el.lnk.GetRemotePeer()][i]) == el
+//@   assert at exit: (el.lnk.GetRemotePeer() in c.linksByPeerID) ==> len(c.linksByPeerID[el.lnk.GetRemotePeer()]) <= old(len(c.linksByPeerID[el.lnk.GetRemotePeer()])) && forall i int trigger c.linksByPeerID[el.lnk.GetRemotePeer()][i] :: 0 <= i && i < len(c.linksByPeerID[el.lnk.GetRemotePeer()]) ==> c.linksByPeerID[el.lnk.GetRemotePeer()][i] == old(c.linksByPeerID[el.lnk.GetRemotePeer()][i]) || (old(c.linksByPeerID[el.lnk.GetRemotePeer()][i]) == el && c.linksByPeerID[el.lnk.GetRemotePeer()][i] == old(c.linksByPeerID[el.lnk.GetRemotePeer()][len(c.linksByPeerID[el.lnk.GetRemotePeer()])-1]) && i < old(len(c.linksByPeerID[el.lnk.GetRemotePeer()])) - 1 && len(c.linksByPeerID[el.lnk.GetRemotePeer()]) == old(len(c.linksByPeerID[el.lnk.GetRemotePeer()])) - 1)
 //@   assert at exit: old(el.lnk.GetRemotePeer() in c.linksByPeerID) && old(len(c.linksByPeerID[el.lnk.GetRemotePeer()])) > 0 && old(c.linksByPeerID[el.lnk.GetRemotePeer()][len(c.linksByPeerID[el.lnk.GetRemotePeer()])-1]) != el ==> (el.lnk.GetRemotePeer() in c.linksByPeerID) && exists j int trigger c.linksByPeerID[el.lnk.GetRemotePeer()][j] :: 0 <= j && j < len(c.linksByPeerID[el.lnk.GetRemotePeer()]) && c.linksByPeerID[el.lnk.GetRemotePeer()][j] == old(c.linksByPeerID[el.lnk.GetRemotePeer()][len(c.linksByPeerID[el.lnk.GetRemotePeer()])-1])
 //@   ensures !(el.lnk.GetUUID() in c.links)
 //@   ensures forall u uint64 trigger dom(c.links, u) :: u != el.lnk.GetUUID() ==> ((u in c.links) <==> old(u in c.links)) && c.links[u] == old(c.links[u])
